@@ -61,7 +61,7 @@ Bind(e) ==
        /\ fd' = [f \in FDs |-> [st |-> fdr(f)[2], renew |-> fdr(f)[3], track |-> fdr(f)[4], cfg |-> fdr(f)[5]]]
        /\ tk' = [b \in BBMDs |-> tkr(b)[2]]
        /\ net' = SeqBag(st.net) /\ up' = SeqBag(st.up) /\ sap' = SeqBag(st.sap)
-       /\ act' = [n |-> e.ev, who |-> e.who, mid |-> e.mid, d |-> e.d, c |-> e.c]
+       /\ act' = [n |-> e.ev, who |-> e.who, mid |-> e.mid, d |-> e.d, c |-> e.c, rt |-> e.rt]
 
 S(cond, name) == IF cond THEN {} ELSE {name}
 Failing ==
@@ -77,7 +77,7 @@ Exercised ==
     \cup (IF \E f \in FDs : WhyNot(h', f, now') = "expired" THEN {"GoneAfterGrace"} ELSE {})
     \cup (IF \E f \in FDs : WhyNot(h', f, now') = "del" THEN {"DeleteIsImmediate"} ELSE {})
     \cup (IF \E f \in FDs : WhyNot(h', f, now') = "unreg" THEN {"UnregisterWithinGrace"} ELSE {})
-    \cup (IF \E f \in FDs : h'[f].active /\ h'[f].live # NONE /\ h'[f].kill = "none" /\ now' > h'[f].live + TTL[f] * Res
+    \cup (IF \E f \in FDs : h[f].live # NONE /\ h'[f].live # NONE /\ h'[f].live > h[f].live      \* a renewal was acknowledged
             THEN {"RenewsBeforeExpiry"} ELSE {})
     \cup (IF act'.n = "Rx" /\ act'.c.fn = "RF" THEN {"ListedIffLive"} ELSE {})
 
